@@ -221,7 +221,30 @@ macro_rules! check_pts {
     }};
 }
 
-fn map_pts<S: Dom, const N: usize, const D: usize, const E: usize>(p: &[[S; D]; N], f: impl Fn(&[S; D]) -> [S; E]) -> [[S; E]; N] {
+pub mod regime;
+
+/// Exactly 2^k in the domain (k may be negative; |k| must stay inside the normal range of the float type).
+pub(crate) fn p2<S: Dom>(k: i32) -> S {
+    let mut r = S::one();
+    let mut left = k.unsigned_abs();
+    while left > 0 {
+        let step = left.min(60);
+        r = r * if k > 0 { S::q(1i64 << step, 1) } else { S::q(1, 1i64 << step) };
+        left -= step;
+    }
+    r
+}
+
+/// Multiply every coordinate by `f` (an exact power of two everywhere it is used).
+pub(crate) fn mul_pt<S: Dom, const D: usize>(q: &[S; D], f: S) -> [S; D] {
+    let mut r = *q;
+    for x in r.iter_mut() {
+        *x = *x * f;
+    }
+    r
+}
+
+pub(crate) fn map_pts<S: Dom, const N: usize, const D: usize, const E: usize>(p: &[[S; D]; N], f: impl Fn(&[S; D]) -> [S; E]) -> [[S; E]; N] {
     let mut r = [[S::zero(); E]; N];
     for i in 0..N {
         r[i] = f(&p[i]);
@@ -299,10 +322,18 @@ fn powi(x: f64, n: usize) -> f64 {
 // ---------------------------------------------------------------------------------------------
 
 fn core_case<S: XDom, C: Curve<S, N, D>, const N: usize, const D: usize>(tp: &mut Tape, cx: &mut Cx) -> CaseResult {
-    let n = N - 1;
     let p: [[S; D]; N] = gen_points(tp, cx);
     let t: S = gen_param(tp);
     let u: S = gen_param(tp);
+    core_body::<S, C, N, D>(cx, &p, 0, t, u)
+}
+
+/// All core relations on the curve with control points `p * 2^k` (the unit of length scaled exactly by a
+/// power of two). Every length vek returns is multiplied back by 2^-k (exact) and judged against the
+/// oracle on the unit-scale points `p` (|coord| <= 9), so all tolerances are relative to the scaled magnitude.
+pub(crate) fn core_body<S: XDom, C: Curve<S, N, D>, const N: usize, const D: usize>(cx: &mut Cx, p: &[[S; D]; N], k: i32, t: S, u: S) -> CaseResult {
+    let n = N - 1;
+    let p = *p;
     classify_param(cx, t);
     if u < S::zero() || u > S::one() {
         cx.label("u-outside");
@@ -312,10 +343,14 @@ fn core_case<S: XDom, C: Curve<S, N, D>, const N: usize, const D: usize>(tp: &mu
         cx.label("collinear");
     }
     cx.set_nontrivial(!col && !special(t));
-    sample!(cx, "{} {} P={:?} t={:?} u={:?}", S::NAME, C::NAME, p, t, u);
+    sample!(cx, "{} {} P={:?} * 2^{} t={:?} u={:?}", S::NAME, C::NAME, p, k, t, u);
 
-    let c = C::build(&p);
-    check_eq!(cx, c.read(), p, "field round trip");
+    let (up, inv) = (p2::<S>(k), p2::<S>(-k));
+    let ps = map_pts(&p, |q| mul_pt(q, up)); // the control points vek sees
+    let un = |v: [S; D]| mul_pt(&v, inv);
+    let unp = |v: [[S; D]; N]| map_pts(&v, |q| mul_pt(q, inv));
+    let c = C::build(&ps);
+    check_eq!(cx, c.read(), ps, "field round trip");
     let pmax = or::pts_max(&p).max(1.0);
     let a = or::spread(t);
     let b = or::spread(u);
@@ -331,41 +366,42 @@ fn core_case<S: XDom, C: Curve<S, N, D>, const N: usize, const D: usize>(tp: &mu
     check_vec!(cx, S, or::poly_eval(&coeffs, t), want, sc_pow, 64, "oracle: power basis vs Bernstein");
 
     // --- evaluate
-    let got = c.v_evaluate(t);
+    let got = un(c.v_evaluate(t));
     check_vec!(cx, S, got, want, sc, 32, "evaluate(t) vs Bernstein sum");
     check_vec!(cx, S, got, dc, sc, 32, "evaluate(t) vs de Casteljau");
-    check_vec!(cx, S, c.v_evaluate(S::zero()), p[0], pmax, 4, "evaluate(0) = start");
-    check_vec!(cx, S, c.v_evaluate(S::one()), p[n], pmax, 4, "evaluate(1) = end");
+    check_vec!(cx, S, un(c.v_evaluate(S::zero())), p[0], pmax, 4, "evaluate(0) = start");
+    check_vec!(cx, S, un(c.v_evaluate(S::one())), p[n], pmax, 4, "evaluate(1) = end");
 
     // --- derivative: hodograph and d/dt of the power-basis polynomial
     let dsc = 2.0 * n as f64 * pmax * powi(a, n - 1);
     let dh = or::hodograph(&p, t);
     let dp = or::poly_deriv(&coeffs, t);
     check_vec!(cx, S, dh, dp, sc_pow * n as f64, 64, "oracle: hodograph vs power-basis derivative");
-    let gd = c.v_derivative(t);
+    let gd = un(c.v_derivative(t));
     check_vec!(cx, S, gd, dh, dsc, 32, "evaluate_derivative(t) vs hodograph");
     check_vec!(cx, S, gd, dp, sc_pow * n as f64, 64, "evaluate_derivative(t) vs d/dt of the power-basis polynomial");
 
     // --- split(t) -> [L, R]
     {
         let [l, r] = c.v_split(t);
+        let (lp, rp) = (unp(l.read()), unp(r.read()));
         let (wl, wr) = or::subdivide(&p, t);
-        check_pts!(cx, S, l.read(), wl, sc, 32, "split(t)[0] vs de Casteljau subdivision");
-        check_pts!(cx, S, r.read(), wr, sc, 32, "split(t)[1] vs de Casteljau subdivision");
-        check_vec!(cx, S, l.read()[n], want, sc, 32, "split(t)[0].end = C(t)");
-        check_vec!(cx, S, r.read()[0], want, sc, 32, "split(t)[1].start = C(t)");
-        check_vec!(cx, S, l.read()[n], r.read()[0], sc, 32, "split halves meet");
-        check_vec!(cx, S, l.read()[0], p[0], pmax, 4, "split(t)[0].start = start");
-        check_vec!(cx, S, r.read()[n], p[n], pmax, 4, "split(t)[1].end = end");
+        check_pts!(cx, S, lp, wl, sc, 32, "split(t)[0] vs de Casteljau subdivision");
+        check_pts!(cx, S, rp, wr, sc, 32, "split(t)[1] vs de Casteljau subdivision");
+        check_vec!(cx, S, lp[n], want, sc, 32, "split(t)[0].end = C(t)");
+        check_vec!(cx, S, rp[0], want, sc, 32, "split(t)[1].start = C(t)");
+        check_vec!(cx, S, lp[n], rp[0], sc, 32, "split halves meet");
+        check_vec!(cx, S, lp[0], p[0], pmax, 4, "split(t)[0].start = start");
+        check_vec!(cx, S, rp[n], p[n], pmax, 4, "split(t)[1].end = end");
         // as functions of u (vek's evaluate on the halves vs the oracle on the original control points)
         let scu = n as f64 * pmax * powi(a * b, n);
         let one = S::one();
         let cl = or::bernstein(&p, t * u);
         let cr = or::bernstein(&p, t + (one - t) * u);
-        check_vec!(cx, S, l.v_evaluate(u), cl, scu, 64, "split(t)[0](u) = C(t*u)");
-        check_vec!(cx, S, r.v_evaluate(u), cr, scu, 64, "split(t)[1](u) = C(t+(1-t)u)");
-        check_vec!(cx, S, or::bernstein(&l.read(), u), cl, scu, 64, "Bernstein(split(t)[0])(u) = C(t*u)");
-        check_vec!(cx, S, or::bernstein(&r.read(), u), cr, scu, 64, "Bernstein(split(t)[1])(u) = C(t+(1-t)u)");
+        check_vec!(cx, S, un(l.v_evaluate(u)), cl, scu, 64, "split(t)[0](u) = C(t*u)");
+        check_vec!(cx, S, un(r.v_evaluate(u)), cr, scu, 64, "split(t)[1](u) = C(t+(1-t)u)");
+        check_vec!(cx, S, or::bernstein(&lp, u), cl, scu, 64, "Bernstein(split(t)[0])(u) = C(t*u)");
+        check_vec!(cx, S, or::bernstein(&rp, u), cr, scu, 64, "Bernstein(split(t)[1])(u) = C(t+(1-t)u)");
     }
 
     // --- matrix(): [1,t,..,t^n] * M dotted with the control points
@@ -393,14 +429,17 @@ fn core_case<S: XDom, C: Curve<S, N, D>, const N: usize, const D: usize>(tp: &mu
     // --- reversed / reverse
     {
         let r = c.v_reversed();
-        let mut rp = p;
+        let mut rp = ps;
         rp.reverse();
         check_eq!(cx, r.read(), rp, "reversed() control points");
         let mut m = c;
         m.v_reverse();
+        check_eq!(cx, m.read(), rp, "reverse() in place: control points");
         check_eq!(cx, m, r, "reverse() in place = reversed()");
         check_eq!(cx, r.v_reversed(), c, "reversed().reversed()");
-        check_vec!(cx, S, r.v_evaluate(t), or::bernstein(&p, S::one() - t), sc, 32, "reversed()(t) = C(1-t)");
+        m.v_reverse();
+        check_eq!(cx, m, c, "reverse() twice in place");
+        check_vec!(cx, S, un(r.v_evaluate(t)), or::bernstein(&p, S::one() - t), sc, 32, "reversed()(t) = C(1-t)");
     }
 
     // --- flips
@@ -411,18 +450,22 @@ fn core_case<S: XDom, C: Curve<S, N, D>, const N: usize, const D: usize>(tp: &mu
             q[ax] = -q[ax];
             q
         };
-        check_eq!(cx, f.read(), map_pts(&p, neg), "flipped_{} control points", ["x", "y", "z"][ax]);
+        check_eq!(cx, f.read(), map_pts(&ps, neg), "flipped_{} control points", ["x", "y", "z"][ax]);
         let mut m = c;
         m.v_flip(ax);
+        check_eq!(cx, m.read(), map_pts(&ps, neg), "flip_{} in place: control points", ["x", "y", "z"][ax]);
         check_eq!(cx, m, f, "flip_{} in place = flipped_{}", ["x", "y", "z"][ax], ["x", "y", "z"][ax]);
-        check_vec!(cx, S, f.v_evaluate(t), neg(&want), sc, 32, "flipped_{}()(t)", ["x", "y", "z"][ax]);
+        m.v_flip(ax);
+        check_eq!(cx, m, c, "flip_{} twice in place", ["x", "y", "z"][ax]);
+        check_eq!(cx, f.v_flipped(ax), c, "flipped_{} twice", ["x", "y", "z"][ax]);
+        check_vec!(cx, S, un(f.v_evaluate(t)), neg(&want), sc, 32, "flipped_{}()(t)", ["x", "y", "z"][ax]);
     }
 
     // --- From<LineSegment> / From<Range>: the straight line start + t (end - start)
     {
         let (s0, s1) = (p[0], p[n]);
-        let sg = C::v_from_segment(&s0, &s1);
-        let rg = C::v_from_range(&s0, &s1);
+        let sg = C::v_from_segment(&ps[0], &ps[n]);
+        let rg = C::v_from_range(&ps[0], &ps[n]);
         check_eq!(cx, rg, sg, "From<Range> = From<LineSegment>");
         let mut wp = [[S::zero(); D]; N];
         for i in 0..N {
@@ -430,23 +473,23 @@ fn core_case<S: XDom, C: Curve<S, N, D>, const N: usize, const D: usize>(tp: &mu
                 wp[i][j] = s0[j] + S::q(i as i64, n as i64) * (s1[j] - s0[j]);
             }
         }
-        check_pts!(cx, S, sg.read(), wp, pmax, 16, "From<LineSegment> control points at i/n along the segment");
-        check_eq!(cx, sg.read()[0], s0, "From<LineSegment> start");
-        check_eq!(cx, sg.read()[n], s1, "From<LineSegment> end");
+        check_pts!(cx, S, unp(sg.read()), wp, pmax, 16, "From<LineSegment> control points at i/n along the segment");
+        check_eq!(cx, sg.read()[0], ps[0], "From<LineSegment> start");
+        check_eq!(cx, sg.read()[n], ps[n], "From<LineSegment> end");
         let mut wl = [S::zero(); D];
         for j in 0..D {
             wl[j] = s0[j] + t * (s1[j] - s0[j]);
         }
-        check_vec!(cx, S, sg.v_evaluate(t), wl, 2.0 * sc, 32, "From<LineSegment>(t) = start + t (end - start)");
+        check_vec!(cx, S, un(sg.v_evaluate(t)), wl, 2.0 * sc, 32, "From<LineSegment>(t) = start + t (end - start)");
         let mut wd = [S::zero(); D];
         for j in 0..D {
             wd[j] = s1[j] - s0[j];
         }
-        check_vec!(cx, S, sg.v_derivative(t), wd, 2.0 * dsc, 32, "From<LineSegment> derivative = end - start");
+        check_vec!(cx, S, un(sg.v_derivative(t)), wd, 2.0 * dsc, 32, "From<LineSegment> derivative = end - start");
     }
 
     // --- container conversions keep the order
-    C::v_containers(&p, cx)?;
+    C::v_containers(&ps, cx)?;
     Ok(())
 }
 
@@ -582,14 +625,23 @@ fn transform_case<S: XDom, C: Tr<S, N, D>, const N: usize, const D: usize>(tp: &
 fn elevate_case<S: XDom, Q: Quad<S, D>, const D: usize>(tp: &mut Tape, cx: &mut Cx) -> CaseResult {
     let p: [[S; D]; 3] = gen_points(tp, cx);
     let t: S = gen_param(tp);
+    elevate_body::<S, Q, D>(cx, &p, 0, t)
+}
+
+/// Degree elevation of the curve with control points `p * 2^k`; lengths are scaled back exactly (see `core_body`).
+pub(crate) fn elevate_body<S: XDom, Q: Quad<S, D>, const D: usize>(cx: &mut Cx, p: &[[S; D]; 3], k: i32, t: S) -> CaseResult {
+    let p = *p;
     classify_param(cx, t);
     let col = or::collinear(&p);
     if col {
         cx.label("collinear");
     }
     cx.set_nontrivial(!col && !special(t));
-    sample!(cx, "{} {} P={:?} t={:?}", S::NAME, Q::NAME, p, t);
-    let q = Q::build(&p);
+    sample!(cx, "{} {} P={:?} * 2^{} t={:?}", S::NAME, Q::NAME, p, k, t);
+    let (up, inv) = (p2::<S>(k), p2::<S>(-k));
+    let ps = map_pts(&p, |q| mul_pt(q, up));
+    let un = |v: [S; D]| mul_pt(&v, inv);
+    let q = Q::build(&ps);
     let cu = q.v_into_cubic();
     check_eq!(cx, q.v_cubic_from(), cu, "From<Quadratic> for Cubic = into_cubic()");
     let pmax = or::pts_max(&p).max(1.0);
@@ -601,15 +653,15 @@ fn elevate_case<S: XDom, Q: Quad<S, D>, const D: usize>(tp: &mut Tape, cx: &mut 
         want[2][j] = (S::i(2) * p[1][j] + p[2][j]) / S::i(3);
         want[3][j] = p[2][j];
     }
-    let cp = cu.read();
+    check_eq!(cx, cu.read()[0], ps[0], "into_cubic start");
+    check_eq!(cx, cu.read()[3], ps[2], "into_cubic end");
+    let cp = map_pts(&cu.read(), |q| mul_pt(q, inv));
     check_pts!(cx, S, cp, want, pmax, 16, "into_cubic control points (P0, (P0+2P1)/3, (2P1+P2)/3, P2)");
-    check_eq!(cx, cp[0], p[0], "into_cubic start");
-    check_eq!(cx, cp[3], p[2], "into_cubic end");
     let wq = or::bernstein(&p, t);
-    check_vec!(cx, S, cu.v_evaluate(t), wq, pmax * powi(a, 3), 32, "into_cubic()(t) = C(t)");
+    check_vec!(cx, S, un(cu.v_evaluate(t)), wq, pmax * powi(a, 3), 32, "into_cubic()(t) = C(t)");
     check_vec!(cx, S, or::bernstein(&cp, t), wq, pmax * powi(a, 3), 32, "Bernstein(into_cubic())(t) = C(t)");
-    check_vec!(cx, S, cu.v_evaluate(t), q.v_evaluate(t), pmax * powi(a, 3), 32, "into_cubic().evaluate(t) = evaluate(t)");
-    check_vec!(cx, S, cu.v_derivative(t), or::hodograph(&p, t), 6.0 * pmax * powi(a, 2), 32, "into_cubic() derivative = C'(t)");
+    check_vec!(cx, S, un(cu.v_evaluate(t)), un(q.v_evaluate(t)), pmax * powi(a, 3), 32, "into_cubic().evaluate(t) = evaluate(t)");
+    check_vec!(cx, S, un(cu.v_derivative(t)), or::hodograph(&p, t), 6.0 * pmax * powi(a, 2), 32, "into_cubic() derivative = C'(t)");
     Ok(())
 }
 
@@ -621,15 +673,22 @@ const PYTH2: [[i64; 3]; 6] = [[3, 4, 0], [5, 12, 0], [8, 15, 0], [1, 0, 0], [7, 
 const PYTH3: [[i64; 3]; 8] = [[1, 2, 2], [2, 3, 6], [1, 4, 8], [2, 6, 9], [3, 4, 0], [0, 0, 1], [4, 4, 7], [6, 6, 7]];
 
 fn tangent_case<S: XDom, C: Curve<S, N, D>, const N: usize, const D: usize>(tp: &mut Tape, cx: &mut Cx) -> CaseResult {
-    let n = N - 1;
     let mut p: [[S; D]; N] = gen_points(tp, cx);
     let mut t: S = gen_param(tp);
+    tangent_fix(tp, cx, &mut p, &mut t);
+    tangent_body::<S, C, N, D>(cx, &p, 0, t)
+}
+
+/// Exact domain only: move the last control point (and t away from 0) so that |C'(t)| is rational.
+pub(crate) fn tangent_fix<S: XDom, const N: usize, const D: usize>(tp: &mut Tape, cx: &mut Cx, p: &mut [[S; D]; N], t: &mut S) {
+    let n = N - 1;
     if S::EXACT {
         // Exact domain: move the last control point so that C'(t) is a vector of rational length
         // (C'(t) is affine in P_n with coefficient n t^(n-1)).
-        if t == S::zero() {
-            t = S::q(1, 4);
+        if *t == S::zero() {
+            *t = S::q(1, 4);
         }
+        let t = *t;
         let base = if D == 2 { PYTH2[tp.below(PYTH2.len())] } else { PYTH3[tp.below(PYTH3.len())] };
         let rot = tp.below(D);
         let mut s = S::small(tp, 4);
@@ -641,9 +700,9 @@ fn tangent_case<S: XDom, C: Curve<S, N, D>, const N: usize, const D: usize>(tp: 
             let sign = if tp.bool() { -1 } else { 1 };
             v[j] = S::i(sign * base[(j + rot) % D]) * s;
         }
-        let mut p2 = p;
-        p2[n] = p2[n - 1];
-        let rest = or::hodograph(&p2, t);
+        let mut q2 = *p;
+        q2[n] = q2[n - 1];
+        let rest = or::hodograph(&q2, t);
         let mut coef = S::i(n as i64);
         for _ in 1..n {
             coef = coef * t;
@@ -653,13 +712,21 @@ fn tangent_case<S: XDom, C: Curve<S, N, D>, const N: usize, const D: usize>(tp: 
         }
         cx.label("rational-length-derivative");
     }
+}
+
+/// normalized_tangent on the curve with control points `p * 2^k` (the tangent is a pure direction, so it must not
+/// depend on k; the derivative is scaled back exactly).
+pub(crate) fn tangent_body<S: XDom, C: Curve<S, N, D>, const N: usize, const D: usize>(cx: &mut Cx, p: &[[S; D]; N], k: i32, t: S) -> CaseResult {
+    let n = N - 1;
+    let p = *p;
     classify_param(cx, t);
     let col = or::collinear(&p);
     if col {
         cx.label("collinear");
     }
-    sample!(cx, "{} {} P={:?} t={:?}", S::NAME, C::NAME, p, t);
-    let c = C::build(&p);
+    sample!(cx, "{} {} P={:?} * 2^{} t={:?}", S::NAME, C::NAME, p, k, t);
+    let (up, inv) = (p2::<S>(k), p2::<S>(-k));
+    let c = C::build(&map_pts(&p, |q| mul_pt(q, up)));
     let d = or::hodograph(&p, t);
     let mut len2 = S::zero();
     for j in 0..D {
@@ -690,7 +757,7 @@ fn tangent_case<S: XDom, C: Curve<S, N, D>, const N: usize, const D: usize>(tp: 
     }
     check_close!(cx, S, g2, S::one(), 1.0, 16, "|normalized_tangent(t)|^2 = 1");
     // parallel to (and along) vek's own derivative
-    let vd = c.v_derivative(t);
+    let vd = mul_pt(&c.v_derivative(t), inv);
     let mut dot = S::zero();
     for a in 0..D {
         dot = dot + got[a] * vd[a];
@@ -783,6 +850,33 @@ pub fn property() -> Property {
             tape!(concat!("tangent-cubic3-", stringify!($dom)), TANGENT, 128, 10_000, tangent_case::<$S, CubicBezier3<$S>, 4, 3>);
         };
     }
+    macro_rules! tape2 {
+        ($name:expr, $about:expr, $len:expr, $q:expr, $th:expr, $f:expr) => {
+            checks.push(Check { name: $name, about: $about, kind: Kind::Tape { len: $len, quick: $q, thorough: $th, f: $f } });
+        };
+    }
+    macro_rules! per_curve_regime {
+        ($dom:ident, $S:ty) => {
+            tape2!(concat!("structured-quad2-", stringify!($dom)), STRUCTURED, 512, 6_000, 1_200_000, regime::structured_case::<$S, QuadraticBezier2<$S>, 3, 2>);
+            tape2!(concat!("structured-quad3-", stringify!($dom)), STRUCTURED, 512, 6_000, 1_200_000, regime::structured_case::<$S, QuadraticBezier3<$S>, 3, 3>);
+            tape2!(concat!("structured-cubic2-", stringify!($dom)), STRUCTURED, 512, 6_000, 1_200_000, regime::structured_case::<$S, CubicBezier2<$S>, 4, 2>);
+            tape2!(concat!("structured-cubic3-", stringify!($dom)), STRUCTURED, 512, 6_000, 1_200_000, regime::structured_case::<$S, CubicBezier3<$S>, 4, 3>);
+            tape2!(concat!("regime-core-quad2-", stringify!($dom)), REGIME_CORE, 192, 5_000, 1_000_000, regime::core_regime::<$S, QuadraticBezier2<$S>, 3, 2>);
+            tape2!(concat!("regime-core-quad3-", stringify!($dom)), REGIME_CORE, 192, 5_000, 1_000_000, regime::core_regime::<$S, QuadraticBezier3<$S>, 3, 3>);
+            tape2!(concat!("regime-core-cubic2-", stringify!($dom)), REGIME_CORE, 192, 5_000, 1_000_000, regime::core_regime::<$S, CubicBezier2<$S>, 4, 2>);
+            tape2!(concat!("regime-core-cubic3-", stringify!($dom)), REGIME_CORE, 192, 5_000, 1_000_000, regime::core_regime::<$S, CubicBezier3<$S>, 4, 3>);
+            tape2!(concat!("regime-elevate-quad2-", stringify!($dom)), REGIME_ELEVATE, 96, 2_000, 400_000, regime::elevate_regime::<$S, QuadraticBezier2<$S>, 2>);
+            tape2!(concat!("regime-elevate-quad3-", stringify!($dom)), REGIME_ELEVATE, 128, 2_000, 400_000, regime::elevate_regime::<$S, QuadraticBezier3<$S>, 3>);
+            tape2!(concat!("regime-tangent-quad2-", stringify!($dom)), REGIME_TANGENT, 160, 2_000, 400_000, regime::tangent_regime::<$S, QuadraticBezier2<$S>, 3, 2>);
+            tape2!(concat!("regime-tangent-quad3-", stringify!($dom)), REGIME_TANGENT, 160, 2_000, 400_000, regime::tangent_regime::<$S, QuadraticBezier3<$S>, 3, 3>);
+            tape2!(concat!("regime-tangent-cubic2-", stringify!($dom)), REGIME_TANGENT, 160, 2_000, 400_000, regime::tangent_regime::<$S, CubicBezier2<$S>, 4, 2>);
+            tape2!(concat!("regime-tangent-cubic3-", stringify!($dom)), REGIME_TANGENT, 160, 2_000, 400_000, regime::tangent_regime::<$S, CubicBezier3<$S>, 4, 3>);
+        };
+    }
+    const STRUCTURED: &str = "Mat * curve with STRUCTURED matrices, every accepted shape x layout: linear block identity / uniform scaling / diagonal / permutation / axis flips / signed permutation / single shear / identity + last column / identity +- 2^-e in one entry / zero / singular / general; translation zero / one axis / general; bottom row affine / (0,..,0,w) / one projective entry / general; points and translation scaled exactly by 2^k (also independently), linear block by 2^j; also matrices from vek's translation_2d/3d, scaling_2d/3d, shearing_x/y, identity, zero read back through their fields: control points and (M*c)(t) vs the point-wise definition on plain arrays, vs vek's own M applied to c.evaluate(t), independence of the bottom row; 2D<->3D conversion of the same curves";
+    const REGIME_CORE: &str = "all relations of the core check (evaluate, derivative, split, matrix(), reversed/reverse, flipped_*/flip_* and their in-place twins applied twice, From<LineSegment>/From<Range>, containers) on degenerate control polygons (point curve, doubled controls, palindromic, closed, evenly spaced on a line, on an axis / in a coordinate plane, {-1,0,1} coordinates, one control point 2^-e smaller), parameters exactly 0 / 1 / 1/2, +-2^-e, 1 +- 2^-e, +-2^e(1+f), u = t, and all lengths scaled exactly by 2^k (results scaled back exactly, tolerance relative to the scaled magnitude)";
+    const REGIME_ELEVATE: &str = "into_cubic / From<Quadratic> on the same degenerate polygons, parameter regimes and 2^k length scales";
+    const REGIME_TANGENT: &str = "normalized_tangent on the same degenerate polygons, parameter regimes and 2^k length scales (|k| limited so that |C'(t)|^2 stays in the normal float range): unit, along evaluate_derivative, independent of k";
     const CORE: &str = "evaluate = Bernstein sum = de Casteljau (t also outside [0,1]), C(0)=start, C(1)=end; evaluate_derivative = hodograph = d/dt of the power-basis polynomial; split(t) = de Casteljau subdivision, L(u)=C(tu), R(u)=C(t+(1-t)u), halves meet at C(t); matrix() entries and dot([1,t,..]*M, P) = C(t); reversed/reverse: C(1-t); flipped_*/flip_*; From<LineSegment>/From<Range> = start + t(end-start); into_vecN/tuple/array and From<VecN> keep the order";
     const TRANSFORM: &str = "Mat * curve for every accepted shape in both layouts (2D: Mat2, Mat3 as 2D point; 3D: Mat3, Mat4 as point; last row unrestricted, w is dropped without division as mul_point documents): control points and (M*C)(t) = M applied to C(t); into_2d / into_3d and the From impls";
     const ELEVATE: &str = "into_cubic / From<Quadratic> for Cubic: control points (P0, (P0+2P1)/3, (2P1+P2)/3, P2), same point and same derivative for every t";
@@ -791,6 +885,9 @@ pub fn property() -> Property {
     per_curve!(rat, Rat);
     per_curve!(f64, f64);
     per_curve!(f32, f32);
+    per_curve_regime!(rat, Rat);
+    per_curve_regime!(f64, f64);
+    per_curve_regime!(f32, f32);
     macro_rules! circle {
         ($name:expr, $f:expr) => {
             checks.push(Check { name: $name, about: CIRCLE, kind: Kind::Index { total: GRID + 1, quick: GRID + 1, thorough: GRID + 1, f: $f } });
